@@ -62,6 +62,8 @@ def classify(res, prog, ref):
     for o in outcomes:
         if not o.startswith("<"):
             res.label("outcome:" + o)
+    if runcheck.typed_texts(prog):
+        res.label("one-text-several-step-types")
 
 
 def _step_lists(feat):
@@ -346,11 +348,11 @@ def abort_case_st(draw):
 def explore(rec):
     quick = rec.tier == "quick"
     rec.enum("core-enumeration", core_enumeration())
-    rec.hyp("random-programs", run_case_st(), 6000 if quick else 120000)
+    rec.hyp("random-programs", run_case_st(typed=True), 6000 if quick else 120000)
     rec.hyp("metamorphic", meta_case_st(), 1500 if quick else 30000)
-    rec.hyp("cli", run_case_st(max_features=2).map(lambda c: dict(c, kind="cli")),
+    rec.hyp("cli", run_case_st(max_features=2, typed=True).map(lambda c: dict(c, kind="cli")),
             16 if quick else 320)
-    rec.hyp("runner-route", run_case_st(max_features=2, cfg=gen.cfg_st(flags=("stop", "dry_run", "wip_flag"))).map(
+    rec.hyp("runner-route", run_case_st(max_features=2, typed=True, cfg=gen.cfg_st(flags=("stop", "dry_run", "wip_flag"))).map(
         lambda c: dict(c, kind="runner")), 1500 if quick else 30000)
     rec.hyp("aborted-runs", abort_case_st(), 1500 if quick else 30000)
     rec.hyp("wip-flag", run_case_st(max_features=2, cfg=gen.cfg_st(flags=("wip_flag", "wip_flag", "dry_run"))),
@@ -362,7 +364,7 @@ def required_labels(tier):
             "fault:cleanup:raising", "has-deselected", "cut-short", "has-rule", "has-outline-row",
             "meta:add_pass", "meta:add_deselected", "meta:permute", "cli", "runner-route", "flag:wip_flag", "abort:step",
             "abort:hook-abort:before_scenario", "abort:hook-interrupt:before_scenario"] + \
-           ["outcome:" + o for o in OUTCOMES]
+           ["outcome:" + o for o in OUTCOMES] + ["outcome:typed", "one-text-several-step-types"]
 
 
 KNOWN_PREDICATES = {}
